@@ -18,7 +18,7 @@ pub struct Datagram {
 #[derive(Clone, Debug)]
 pub enum NetEvent {
     /// a datagram was put on the wire towards the tracker (after network faults)
-    Inject { seq: u64, id: u64, src: SocketAddr, len: usize, sock: usize },
+    Inject { seq: u64, id: u64, src: SocketAddr, len: usize, sock: usize, bytes: Vec<u8> },
     /// the tracker's recv_from returned this datagram
     Recv { seq: u64, tid: engine::Tid, sock: usize, id: u64, src_presented: SocketAddr, len: usize, truncated: bool },
     /// the tracker called send_to
@@ -454,7 +454,10 @@ pub fn inject(bytes: Vec<u8>, src: SocketAddr, pick: Pick, delay_ns: u64) -> Opt
         Some((id, sock, len, waiter, net_thread)) => {
             if delay_ns == 0 {
                 let seq = engine::log("udp-inject", id, len as u64);
-                with(|n| n.events.push(NetEvent::Inject { seq, id, src, len, sock }));
+                with(|n| {
+                    let bytes = n.socks[sock].queue.iter().rev().find(|d| d.id == id).map(|d| d.bytes.clone()).unwrap_or_default();
+                    n.events.push(NetEvent::Inject { seq, id, src, len, sock, bytes })
+                });
             }
             if let Some(t) = waiter {
                 engine::wake(t);
@@ -484,12 +487,13 @@ pub fn net_thread_main() {
             let len = p.d.bytes.len();
             let src = p.d.src;
             let sock = p.sock;
+            let bytes = p.d.bytes.clone();
             let w = with(|n| {
                 n.socks[sock].queue.push_back(p.d);
                 n.socks[sock].waiter.take()
             });
             let seq = engine::log("udp-inject", id, len as u64);
-            with(|n| n.events.push(NetEvent::Inject { seq, id, src, len, sock }));
+            with(|n| n.events.push(NetEvent::Inject { seq, id, src, len, sock, bytes }));
             if let Some(t) = w {
                 engine::wake(t);
             }
